@@ -1,4 +1,5 @@
 """C12 - streamed HTTP responses (SSE, multipart/mixed) are well-framed under any timing."""
+import os
 from collections import Counter
 from lib import vf
 
@@ -52,6 +53,33 @@ def _mp_batches_from_bytes(rawhex):
         return None
 
 
+def _split_fin(payloads, fin):
+    """<payloads> is what has to be delivered; when the operation ended by a panic its last entry is the
+    error response <fin>: the operation is (good responses, fin)"""
+    if fin == "-":
+        return payloads, "-"
+    ps = payloads.split(",")
+    assert ps and ps[-1] == fin, "harness: fin is not the last payload"
+    return (",".join(ps[:-1]) or "-"), fin
+
+
+def _nclass(n):
+    return str(n) if n < 2 else "2-5" if n <= 5 else "6+"
+
+
+def _fin_note(fin):
+    return "" if fin == "-" else " (the last one is the error response of a panic raised while a response was being built)"
+
+
+def _loop_end(m):
+    """third field of the sseo / mpo answers: how the regenerated response loop ended"""
+    for t in ("m1", "m2"):
+        f = (m.get(t) or "").split(" ")
+        if len(f) >= 3 and f[2] != "done":
+            return f[2]
+    return None
+
+
 def run(ctx):
     ctx.assumptions += [
         "sync.Mutex gives mutual exclusion and net/http's ResponseWriter.Write/Flush hand whole byte slices, in call order, to the connection: one critical section of sseConnection.write / multipartResponseAggregator.flush is modelled as one atomic step (Go's memory model is not modelled; 'no data race' is observed with -race, never proved)",
@@ -59,8 +87,9 @@ def run(ctx):
         "encoding/json: json.Marshal(*graphql.Response) returns one line of valid JSON starting with '{' (checked on every generated payload, not proved); the multipart wrapper is the byte form json.Marshal gives the anonymous struct of writeIncrementalJson (compared byte-exactly on every case)",
         "multipart theorem assumes the hasNext shape true...true,false (C13) - streams that do not have it (e.g. subscriptions over multipart/mixed) are only compared with the model, not judged",
         "timer behaviour (time.Ticker, Reset) only chooses the schedule; every schedule is covered by the theorems",
+        "which responses reach the writers is read off the source by go/extract/streamloop.go (the statements of the two `for { response, panicked := nextResponse(...) }` loops and the literals of nextResponse's recover branch: Gen.StreamLoop) and re-proved on every run; that a Go panic unwinds to nextResponse's deferred recover is Go semantics, exercised (operations that end by a panic, 5 kinds of panic value x 5 RecoverFuncs), not modelled",
     ]
-    ok_extract = ctx.extract("StreamFmt")
+    ok_extract = ctx.extract("StreamFmt", "StreamLoop")
     proved = bool(ok_extract) and ctx.prove(props=["GqlgenVerif.Props.C12"])
     if ok_extract and not proved:
         ctx.cov["proof_failure"] = ctx.proof_failure
@@ -73,6 +102,8 @@ def run(ctx):
         runs.append((False, ctx.seed + 1000 * k, []))
     # the same generators under the race detector, one case at a time (attributable reports)
     runs.append((True, ctx.seed + 1, ["-seq"] + (["-sse", 800, "-mp", 400] if thorough else ["-sse", 80, "-mp", 40])))
+    corpus_dir = os.path.join(vf.VERIF, "corpus", "C12")
+    runs = [(race, seed, ["-corpus", corpus_dir] + extra) for race, seed, extra in runs]
     n_plain = n_race = 0
     for race, seed, extra in runs:
         rc, so, se = ctx.harness("c12", ["-tier", ctx.tier, "-seed", seed] + extra, race=race, timeout=2400)
@@ -106,9 +137,10 @@ def run(ctx):
             sched = "-" if not seen else (_sse_sched(seen) if seen[0] == "C-" else None)
             if sched is not None:
                 ka = "1" if r[2] != "0" else "0"
-                lines.append("sse %s %s %s" % (ka, r[6], sched)); idx.append((i, "m1"))
+                good, fin = _split_fin(r[6], r[12])
+                lines.append("sseo %s %s %s %s" % (ka, good, fin, sched)); idx.append((i, "m1"))
                 if disc:
-                    lines.append("sse %s %s %s" % (ka, r[6], (sched if sched != "-" else "") + "t")); idx.append((i, "m2"))
+                    lines.append("sseo %s %s %s %s" % (ka, good, fin, (sched if sched != "-" else "") + "t")); idx.append((i, "m2"))
         elif r[0] == "mp":
             disc = r[4] != "-1"
             shape = r[13] == "1"
@@ -120,8 +152,9 @@ def run(ctx):
                 batches = _mp_batches_from_bytes(r[8]) or batches   # mime/multipart stops at the first closing delimiter
             if disc and sum(batches) < npay:
                 batches = batches + [npay - sum(batches)]
+            good, fin = _split_fin(r[7], r[15])
             for tag, merge in (("m1", False), ("m2", True)):
-                lines.append("mp %s %s %s" % (r[2], r[7], _mp_scheds(batches, merge))); idx.append((i, tag))
+                lines.append("mpo %s %s %s %s" % (r[2], good, fin, _mp_scheds(batches, merge))); idx.append((i, tag))
     outs = ctx.driver("c12", lines) if lines else []
     model = {}
     for (i, tag), o in zip(idx, outs):
@@ -156,7 +189,7 @@ def run(ctx):
             continue
         m = model.get(i, {})
         if kind == "sse":
-            ka, disc, payloads, raw, items, gov, hstate, desc = r[2], r[3], r[6], r[7], r[8], r[9], r[10], r[11]
+            ka, disc, payloads, raw, items, gov, hstate, desc, fin = r[2], r[3], r[6], r[7], r[8], r[9], r[10], r[11], r[12]
             its = [] if items == "-" else items.split(",")
             npings_between = 0
             seen_event = False
@@ -169,7 +202,9 @@ def run(ctx):
             branch["sse:ka=" + ("off" if ka == "0" else "<=5us" if int(ka) <= 5 else "<=200us" if int(ka) <= 200 else "ms")] += 1
             if race:
                 branch["sse:race-build"] += 1
-            if npings_between or disc != "-1" or desc == "operr":
+            if fin != "-":
+                branch["sse:ends-by-panic after %s good" % _nclass(len(payloads.split(",")) - 1)] += 1
+            if npings_between or disc != "-1" or desc == "operr" or fin != "-":
                 nontriv.add(("sse", r[1], r[-1]))
             chk = m.get("chk")
             leanv, leanitems = (chk.split(" ", 1) + ["-"])[:2] if chk else (None, None)
@@ -180,6 +215,8 @@ def run(ctx):
                 corr_fail = True; why.append("Lean and Go SSE parsers disagree on the implementation's bytes")
             if have_model and not spec_fail:
                 m1 = m.get("m1")
+                if _loop_end(m):
+                    corr_fail = True; why.append("the response loop regenerated from SSE.Do does not end by a break on this operation: " + _loop_end(m))
                 if m1 is None:
                     corr_fail = True; why.append("no schedule reproduces the observed items")
                 else:
@@ -196,22 +233,25 @@ def run(ctx):
                 div += 1
                 failure = gov if gov != "ok" else (leanv if leanv not in (None, "ok") else hstate)
                 viol({"kind": "spec" if spec_fail else "correspondence", "why": why, "go_oracle": gov, "lean_spec": leanv, "handler": hstate,
-                      "input": {"transport": "sse", "keepalive_us": ka, "payloads_hex": payloads, "disconnect_after": disc, "case": desc},
+                      "input": {"transport": "sse", "keepalive_us": ka, "payloads_hex": payloads, "disconnect_after": disc, "case": desc,
+                                "ends_by_panic_error_response_hex": fin},
                       "impl_bytes_hex": raw[:6000], "impl_items": items[:3000], "model": (m.get("m1") or "")[:3000],
                       "shape": {"transport": "sse", "failure": failure if spec_fail else "correspondence"},
-                      "replay": replay_cmd(r, race) + "   # SSE keepalive=%sus, %d payloads: %s" % (ka, 0 if payloads == "-" else len(payloads.split(",")), failure if spec_fail else "; ".join(why))},
+                      "replay": replay_cmd(r, race) + "   # SSE keepalive=%sus, %d payloads%s: %s" % (ka, 0 if payloads == "-" else len(payloads.split(",")), _fin_note(fin), failure if spec_fail else "; ".join(why))},
                      spec_fail)
             elif len(samples) < 3 and npings_between and _hexlen(raw) < 400:
                 samples.append({"transport": "sse", "keepalive_us": ka, "payloads_hex": payloads, "impl_bytes_hex": raw, "items": items})
         elif kind == "mp":
-            bnd, tmo, disc, payloads, raw, items, batches, gov, hstate, shape, desc = r[2], r[3], r[4], r[7], r[8], r[9], r[10], r[11], r[12], r[13], r[14]
+            bnd, tmo, disc, payloads, raw, items, batches, gov, hstate, shape, desc, fin = r[2], r[3], r[4], r[7], r[8], r[9], r[10], r[11], r[12], r[13], r[14], r[15]
             bl = [] if batches == "-" else [int(x) for x in batches.split(",")]
             branch["mp:" + desc] += 1
             branch["mp:parts=" + (str(len(bl)) if len(bl) < 4 else "4+")] += 1
             branch["mp:maxbatch=" + (str(max(bl[1:] or [0])) if max(bl[1:] or [0]) < 3 else "3+")] += 1
             if race:
                 branch["mp:race-build"] += 1
-            if len(bl) >= 2 or disc != "-1" or shape != "1":
+            if fin != "-":
+                branch["mp:ends-by-panic after %s good" % _nclass(len(payloads.split(",")) - 1)] += 1
+            if len(bl) >= 2 or disc != "-1" or shape != "1" or fin != "-":
                 nontriv.add(("mp", r[1], r[-1]))
             chk = m.get("chk")
             leanv, leanitems = (chk.split(" ", 1) + ["-"])[:2] if chk else (None, None)
@@ -222,6 +262,8 @@ def run(ctx):
             if judged and leanitems is not None and disc == "-1" and leanitems != items:
                 corr_fail = True; why.append("Lean and mime/multipart parsers disagree on the implementation's bytes")
             if have_model and not spec_fail:
+                if _loop_end(m):
+                    corr_fail = True; why.append("the response loop regenerated from MultipartMixed.Do does not end by a break on this operation: " + _loop_end(m))
                 cands = [m[t].split(" ")[0] for t in ("m1", "m2") if t in m]
                 rr = "" if raw == "-" else raw
                 if disc == "-1":
@@ -239,10 +281,11 @@ def run(ctx):
                 div += 1
                 failure = hstate if hstate != "ok" else gov if gov != "ok" else leanv
                 viol({"kind": "spec" if spec_fail else "correspondence", "why": why, "go_oracle": gov, "lean_spec": leanv, "handler": hstate,
-                      "input": {"transport": "multipart/mixed", "boundary_hex": bnd, "delivery_timeout_us": tmo, "payloads_hex_hasNext": payloads, "disconnect_after": disc, "case": desc},
+                      "input": {"transport": "multipart/mixed", "boundary_hex": bnd, "delivery_timeout_us": tmo, "payloads_hex_hasNext": payloads, "disconnect_after": disc, "case": desc,
+                                "ends_by_panic_error_response_hex": fin},
                       "impl_bytes_hex": raw[:6000], "impl_items": items[:3000], "batches": batches,
                       "shape": {"transport": "mp", "failure": failure if spec_fail else "correspondence"},
-                      "replay": replay_cmd(r, race) + "   # multipart/mixed boundary=%r, %d payloads: %s" % (bytes.fromhex("" if bnd == "-" else bnd).decode("latin1"), 0 if payloads == "-" else len(payloads.split(",")), failure if spec_fail else "; ".join(why))},
+                      "replay": replay_cmd(r, race) + "   # multipart/mixed boundary=%r, %d payloads%s: %s" % (bytes.fromhex("" if bnd == "-" else bnd).decode("latin1"), 0 if payloads == "-" else len(payloads.split(",")), _fin_note(fin), failure if spec_fail else "; ".join(why))},
                      spec_fail)
             elif len(samples) < 5 and len(bl) >= 2 and _hexlen(raw) < 500:
                 samples.append({"transport": "multipart/mixed", "boundary_hex": bnd, "payloads_hex_hasNext": payloads, "impl_bytes_hex": raw, "batches": batches})
@@ -250,13 +293,13 @@ def run(ctx):
     if ok_extract and not proved and not any(not nf for _, nf in ctx.violations):
         # a theorem over the regenerated facts no longer checks and no failing input was found above
         ctx.violation({"kind": "proof", "failing": ctx.proof_failure,
-                       "replay": "cd /verif/lean && lake build GqlgenVerif.Props.C12   # theorems over Gen/StreamFmt.lean regenerated from /repo"},
+                       "replay": "cd /verif/lean && lake build GqlgenVerif.Props.C12   # theorems over Gen/StreamFmt.lean, Gen/StreamLoop.lean regenerated from /repo"},
                       no_failing_input=True)
 
     ctx.cov.update({
         "evaluations": len(rows),
         "distinct_nontrivial": len(nontriv),
-        "rule": "one evaluation = one real HTTP exchange with the transport behind httptest.Server (hand-built ExecutableSchema, 0-50 payloads with adversarial strings, inter-payload delays 0-2.7ms, keep-alive 1us-5ms / flush tick 1ms-3ms, 10 boundaries, client disconnect points), bytes parsed by bufio/mime-multipart parsers, by the Lean parsers, and compared byte-exactly with the Lean model run on the observed schedule. Non-trivial = SSE case with a ping between two events, an operation-error stream or a disconnect; multipart case with >= 2 parts, a disconnect, or a hasNext sequence outside the shape",
+        "rule": "one evaluation = one real HTTP exchange with the transport behind httptest.Server (hand-built ExecutableSchema, 0-50 payloads with adversarial strings, inter-payload delays 0-2.7ms, keep-alive 1us-5ms / flush tick 1ms-3ms, 10 boundaries, client disconnect points; an operation ends by nil or by a panic raised while the next response is being built - after 0, 1 or many good payloads, 5 kinds of panic value x 5 RecoverFuncs - whose error response must be delivered as the last payload), bytes parsed by bufio/mime-multipart parsers, by the Lean parsers, and compared byte-exactly with the Lean model (response loop regenerated from source + writer model) run on the operation and the observed schedule. Non-trivial = SSE case with a ping between two events, an operation-error stream, a disconnect or a panic; multipart case with >= 2 parts, a disconnect, a panic, or a hasNext sequence outside the shape",
         "input_distribution": dict(branch),
         "kinds": dict(kinds),
         "plain_build_cases": n_plain,
